@@ -73,7 +73,8 @@ Record exec_case := {
   xc_oracle : otables;
   xc_data : jt;                 (* observed *)
   xc_errors : list err;
-  xc_log : list logent }.
+  xc_log : list logent;
+  xc_recovers : nat }.          (* RecoverFunc invocations during the operation *)
 
 Definition fuel_of (c : exec_case) : nat := 40%nat.
 
@@ -117,3 +118,9 @@ Fixpoint has_dup_key (j : jt) {struct j} : bool :=
          end) l
   | _ => false
   end.
+
+(** C04 monitor: the specified response (or the kept typed-nil deviation), and the recover hook called
+    exactly once per panic that execution reached (= the panic errors of the observed response). *)
+Definition is_panic_err (e : err) : bool := match snd e with EPanic _ => true | _ => false end.
+Definition c04_monitor (c : exec_case) : bool :=
+  exec_monitor_tn c && Nat.eqb (xc_recovers c) (List.length (filter is_panic_err (xc_errors c))).
